@@ -31,15 +31,39 @@
       (2) registers beyond `X31` print but do not parse; (3) a label that starts with `//` is read as a comment;
       (4) a comment `#ctx [` … that is not a well-formed hook is a parse error in `layout`.
     The corrected hypothesis is `C14R_routineTextOK` (head label + per item: registers, labels, comments).
-  EVERY COMPILED ROUTINE (second part of this file): `C14R_namesTextSafe`, `C14R_routine_textOK`,
-    `C14R_routine_loads`, `C08_programs_text_loaded`.
+  EVERY COMPILED ROUTINE (second part of this file; nothing is evaluated on the routine, the parser is never run):
+      `C14R_namesTextSafe p : Bool`  the names check on the PROGRAM (`progNamesOK okcR`, as for AArch64 with a larger
+                               character class: no white space, not `/`, not `#` — a superset of the AArch64
+                               class `okcA`, which moreover excludes `, : [ ] ! .`: `C14R_names_of_A64names`,
+                               every program that passes the AArch64 names check passes this one);
+      `C14R_routine_textOK`    every routine the backend model emits (`compile rvBackend`, both hook settings, every
+                               counter start, programs of ANY size) passes `C14R_routineTextOK`.  Through
+                               Scc/RV/LoaderNames.lean: `opsNamesC_rv` (the RISC-V instance of the generic lifting
+                               `Backend.NamesC.post_compileR_namesC`: labels, comments), `opsSat_rv` (the instance of
+                               `X86.OpsSat`/`post_compileR`: every register is `X0..X3` or comes from
+                               `positionRegister`, which panics instead of going beyond `X31`), `post_compileR_head`
+                               (the code starts with the label of the first definition);
+      `C14R_routine_loads`, `C14R_routine_loads_exact`, `C14R_routine_run`.
+    C08 ON THE TEXT: `C08_programs_routine_text`, `C08_programs_text_loaded` (= `C08_programs_text` WITHOUT its
+      hypothesis `C08_TextLoads`), `C08_programs_live_text` (with the static bound `LiveAtMost`): a terminating run
+      of the AxCut positional machine is reproduced by `RV.run` on the text of `compileRoutine`; no hypothesis about
+      the parser is left.  Non-vacuity: the two closure programs of Props/C08RVClo.lean, run on their texts.
+  WHY `#` AND `/` ARE EXCLUDED FROM NAMES: a definition `//f` gives the label `//f_`, read as a comment
+    (`C14R_names_needed`); `#`: the generic lifting asks for it (the `op` / `call` comments start with a name; a
+    white-space-free name cannot make them start with `#ctx [`, so this exclusion is a convenience, not a need).
+  NOT proved: that every program the front end accepts has text-safe names at stage 5 (a per-program check, as
+    for the other two backends).  Nothing remains a `def … : Prop` except the corrected statement, which is proved.
 -/
-import Scc.RV.LoaderCheck
+import Scc.RV.LoaderNames
+import Scc.A64.LoaderA64Names
 import Scc.Props.C08RVClo
 
 namespace Scc.RV
 
 open Scc.RV.Loader Scc.RV.Ref Scc.Str
+open Scc.AxCut Scc.AxCut.Pos Scc.Backend
+open Scc.Props.C06Generic (Reachable)
+open Scc.Props.C14Generic (LabelSafe)
 
 /-! ## strings -/
 
@@ -176,6 +200,174 @@ theorem C08_loader_statement_false : ¬ C08_loader_statement := by
   exact C14R_headLabel_needed (.LI ⟨5⟩ 0) [] (fun l h => by cases h) (by decide)
     (hall [.LI ⟨5⟩ 0] (by decide))
 
+/-! ## every compiled routine loads -/
+
+/-- **the decidable hypothesis on the names of the linearized program** (`progNamesOK okcR`,
+    Scc/X86/LoaderNames.lean): every identifier (definition names, variables, xtor tags) consists of characters in
+    `okcR` — no white space, not `/`, not `#` —, type names have no line break, the mangled name of every type a
+    `switch`/`create` dispatches on consists of `okcR` characters -/
+def C14R_namesTextSafe (p : AxCut.Prog) : Bool := Scc.X86.Loader.progNamesOK okcR p
+
+/-- every program that passes the names check of the AArch64 loader (`C14A_namesTextSafe` = `progNamesOK okcA`,
+    Props/C14LoaderA64Names.lean: evaluated on every front-end-accepted program of the corpus, all pass) passes
+    the RISC-V one: the character class `okcA` is contained in `okcR` -/
+theorem C14R_names_of_A64names {p : AxCut.Prog}
+    (h : Scc.X86.Loader.progNamesOK Scc.A64.Loader.okcA p = true) : C14R_namesTextSafe p = true :=
+  progNamesOK_mono (fun c hc => by
+    have h1 := Scc.A64.Loader.okcA_facts hc
+    have h2 := Scc.A64.Loader.labelC_facts h1.1
+    simp only [okcR, Bool.and_eq_true, bne_iff_ne, ne_eq, Bool.not_eq_true']
+    exact ⟨⟨h2.2.1, h1.2.2.1⟩, h1.2.2.2⟩) h
+
+section
+variable {p : AxCut.Prog} {hooks : Bool} {c0 : Nat} {instrs : List Code} {nargs cX : Nat}
+
+/-- every routine the backend model emits for a program with text-safe names is text-safe: it starts with the
+    label of the first definition, every register is one of `X0..X31` (`positionRegister` panics otherwise),
+    every label is `<def>_`, `lab<n>`, `<mangled type>_<n>`, `<base>_<xtor>` or `cleanup`, every comment is a
+    literal, a statement rendering without line break, or a well-formed hook -/
+theorem C14R_routine_textOK (hnames : C14R_namesTextSafe p = true)
+    (h : (compile rvBackend hooks p).run c0 = .ok ((instrs, nargs), cX)) : C14R_routineTextOK instrs = true :=
+  compile_textOK hnames h
+
+/-- **EVERY ROUTINE OF THE RISC-V BACKEND MODEL LOADS** -/
+theorem C14R_routine_loads (hnames : C14R_namesTextSafe p = true)
+    (h : (compile rvBackend hooks p).run c0 = .ok ((instrs, nargs), cX)) : C08_TextLoads instrs :=
+  C14R_loader instrs (C14R_routine_textOK hnames h)
+
+/-- … with the parsed lines exactly -/
+theorem C14R_routine_loads_exact (hnames : C14R_namesTextSafe p = true)
+    (h : (compile rvBackend hooks p).run c0 = .ok ((instrs, nargs), cX)) :
+    parseText (intoRoutine instrs) = .ok (numberOpt 1 (routineParsed instrs)) :=
+  (C14R_loader_exact instrs (C14R_routine_textOK hnames h)).1
+
+/-- … and the machine on its text is the machine on these lines -/
+theorem C14R_routine_run (hnames : C14R_namesTextSafe p = true)
+    (h : (compile rvBackend hooks p).run c0 = .ok ((instrs, nargs), cX))
+    (args : List Word) (fuel : Nat) (cfg : MonCfg) (hwf : cfg.wf = false) :
+    run (intoRoutine instrs) args fuel cfg = runLines (numberOpt 1 (routineParsed instrs)) args fuel cfg :=
+  C14R_run instrs (C14R_routine_textOK hnames h) args fuel cfg hwf
+end
+
+/-! ## C08 end to end ON THE TEXT, no hypothesis about the loader -/
+
+/-- THEOREM A ∘ THEOREM B FOR ALL PROGRAMS ON THE TEXT of `compileRoutine`: a terminating run of the AxCut positional
+machine with result `v` is reproduced by `RV.run` on the emitted text (it reaches `cleanup` with `v` in `X10`).
+`C08_programs_text` (Props/C08RVClo.lean) with its loader hypothesis `C08_TextLoads` DISCHARGED by the round trip
+(`C14R_routine_loads`) from the decidable names check `C14R_namesTextSafe`; the size hypothesis `hfitX` is asked
+of the emitted code only. -/
+theorem C08_programs_routine_text (p : AxCut.Prog) (args : List Word) (hooks : Bool) (counter : Nat)
+    (instrs : List Code) (nargs cX : Nat) (d0 : Def)
+    (hsafe : LabelSafe p = true) (htp : LinTypedProg p) (hsize : C08_sizeCheck p = true)
+    (hnames : C14R_namesTextSafe p = true)
+    (hcompX : (compile rvBackend hooks p).run counter = .ok ((instrs, nargs), cX))
+    (hfitX : codeBase + 4 * instrs.length < 2 ^ 64)
+    (hd : p.defs.head? = some d0) (hentry : ∀ b ∈ d0.ctx, b.chi = .ext ∧ b.ty = .i64)
+    (hcap : ∀ st, Reachable p ⟨d0.ctx, args.map .int, d0.body⟩ st → st.ctx.length ≤ maxVariables)
+    (fuel : Nat) (v : Word)
+    (hrun : (Pos.run p args fuel).res = .done v)
+    (mc : MonCfg) (hheap : mc.heap = false) (hwf : mc.wf = false) (htop : heapBase + mc.heapBytes ≤ 2 ^ 63)
+    (hbytes : 128 + 64 * 15 * fuel ≤ mc.heapBytes) :
+    ∃ fuel', (run (intoRoutine instrs) args fuel' mc).res = .done v := by
+  obtain ⟨lines, hparse, hlines, hhook⟩ := C14R_routine_loads hnames hcompX
+  obtain ⟨fuel', hf⟩ := C08_programs_checked p args hooks instrs [Code.COMMENT "actual code"] nargs cX d0
+    hsafe htp hsize hcompX hfitX hd hentry hcap fuel v hrun mc hheap htop hbytes
+    lines (fun c hc => by simp at hc; subst hc; rfl) hlines hhook
+  exact ⟨fuel', by rw [run_eq_runLines hparse args fuel' mc hwf]; exact hf⟩
+
+/-- `C08_programs_text` WITHOUT its hypothesis `hload` (`C08_TextLoads`): the names check instead -/
+theorem C08_programs_text_loaded (p : AxCut.Prog) (args : List Word) (hooks : Bool) (counter : Nat) (text : String)
+    (nargs : Nat) (d0 : Def)
+    (hsafe : LabelSafe p = true) (htp : LinTypedProg p) (hsize : C08_sizeCheck p = true)
+    (hnames : C14R_namesTextSafe p = true)
+    (hcompX : compileRoutine p hooks counter = .ok (nargs, text))
+    (hfitX : ∀ instrs, intoRoutine instrs = text → codeBase + 4 * instrs.length < 2 ^ 64)
+    (hd : p.defs.head? = some d0) (hentry : ∀ b ∈ d0.ctx, b.chi = .ext ∧ b.ty = .i64)
+    (hcap : ∀ st, Reachable p ⟨d0.ctx, args.map .int, d0.body⟩ st → st.ctx.length ≤ maxVariables)
+    (fuel : Nat) (v : Word)
+    (hrun : (Pos.run p args fuel).res = .done v)
+    (mc : MonCfg) (hheap : mc.heap = false) (hwf : mc.wf = false) (htop : heapBase + mc.heapBytes ≤ 2 ^ 63)
+    (hbytes : 128 + 64 * 15 * fuel ≤ mc.heapBytes) :
+    ∃ fuel', (run text args fuel' mc).res = .done v := by
+  unfold compileRoutine at hcompX
+  cases hx : (compile rvBackend hooks p).run counter with
+  | error e => rw [hx] at hcompX; cases hcompX
+  | ok r =>
+    obtain ⟨⟨instrs, nargs'⟩, cX⟩ := r
+    rw [hx] at hcompX
+    simp only [Except.ok.injEq, Prod.mk.injEq] at hcompX
+    obtain ⟨rfl, rfl⟩ := hcompX
+    exact C08_programs_routine_text p args hooks counter instrs nargs' cX d0 hsafe htp hsize hnames hx
+      (hfitX instrs rfl) hd hentry hcap fuel v hrun mc hheap hwf htop hbytes
+
+/-- the same with the STATIC bound `LiveAtMost maxVariables p` of the C08 statement in place of the bound on the
+    reachable states: every hypothesis is a decidable check on the program / the emitted code / the machine
+    configuration, or the run itself -/
+theorem C08_programs_live_text (p : AxCut.Prog) (args : List Word) (hooks : Bool) (counter : Nat)
+    (instrs : List Code) (nargs cX : Nat) (d0 : Def)
+    (hsafe : LabelSafe p = true) (htp : LinTypedProg p) (hsize : C08_sizeCheck p = true)
+    (hlive : LiveAtMost maxVariables p) (hnames : C14R_namesTextSafe p = true)
+    (hcompX : (compile rvBackend hooks p).run counter = .ok ((instrs, nargs), cX))
+    (hfitX : codeBase + 4 * instrs.length < 2 ^ 64)
+    (hd : p.defs.head? = some d0) (hentry : ∀ b ∈ d0.ctx, b.chi = .ext ∧ b.ty = .i64)
+    (fuel : Nat) (v : Word)
+    (hrun : (Pos.run p args fuel).res = .done v)
+    (mc : MonCfg) (hheap : mc.heap = false) (hwf : mc.wf = false) (htop : heapBase + mc.heapBytes ≤ 2 ^ 63)
+    (hbytes : 128 + 64 * 15 * fuel ≤ mc.heapBytes) :
+    ∃ fuel', (run (intoRoutine instrs) args fuel' mc).res = .done v := by
+  have hmem : d0 ∈ p.defs := by
+    cases hdefs : p.defs with
+    | nil => rw [hdefs] at hd; simp at hd
+    | cons d ds => rw [hdefs] at hd; simp at hd; subst hd; simp
+  exact C08_programs_routine_text p args hooks counter instrs nargs cX d0 hsafe htp hsize hnames hcompX hfitX hd
+    hentry (C08_capacity_of_liveAtMost_all hlive hmem args) fuel v hrun mc hheap hwf htop hbytes
+
+/-! ### non-vacuity -/
+
+example : C14R_namesTextSafe C08_cloProg = true ∧ C14R_namesTextSafe C08_opsProg = true := by decide
+
+/-- the closure program of Props/C08RVClo.lean (a closure stored in an object, loaded again, invoked), compiled
+    WITH hooks, started with x = 37: `RV.run` ON THE EMITTED TEXT reaches `cleanup` with 42 in `X10` -/
+example : ∃ text fuel', compileRoutine C08_cloProg true 0 = .ok (1, text) ∧
+    (run text [37] fuel' {}).res = .done 42 := by
+  have hcompX : ∃ k, (compile rvBackend true C08_cloProg).run 0 = .ok ((C08_cloInstrs, 1), k) := by
+    rw [← rvBackendF_eq]; exact ⟨_, rfl⟩
+  obtain ⟨cX, hcompX⟩ := hcompX
+  have hc : compileRoutine C08_cloProg true 0 = .ok (1, intoRoutine C08_cloInstrs) := by
+    unfold compileRoutine; rw [hcompX]
+  have hrun : (Pos.run C08_cloProg [37] 20).res = .done 42 := by decide
+  obtain ⟨fuel', h⟩ := C08_programs_live_text C08_cloProg [37] true 0 C08_cloInstrs 1 cX C08_cloMain
+    (by decide) (linTypedCheck_sound C08_cloProg rfl) (by decide) C08_cloProg_live (by decide)
+    hcompX C08_cloInstrs_fits rfl (by decide) 20 42 hrun {} rfl rfl (by decide) (by decide)
+  exact ⟨_, fuel', hc, h⟩
+
+/-- the two-method program (`add_and_jump` through the method table), x = 21 -/
+example : ∃ fuel', (run (intoRoutine C08_opsInstrs) [21] fuel' {}).res = .done 42 := by
+  have hcompX : ∃ k, (compile rvBackend true C08_opsProg).run 0 = .ok ((C08_opsInstrs, 1), k) := by
+    rw [← rvBackendF_eq]; exact ⟨_, rfl⟩
+  obtain ⟨cX, hcompX⟩ := hcompX
+  have hrun : (Pos.run C08_opsProg [21] 20).res = .done 42 := by decide
+  exact C08_programs_live_text C08_opsProg [21] true 0 C08_opsInstrs 1 cX C08_opsMain
+    (by decide) (linTypedCheck_sound C08_opsProg rfl) (by decide) C08_opsProg_live (by decide)
+    hcompX C08_opsInstrs_fits rfl (by decide) 20 42 hrun {} rfl rfl (by decide) (by decide)
+
+/-! ### the names hypothesis cannot be dropped; excluded points (evaluation of the REAL model) -/
+
+/-- a definition named `a b` gives the label `a b_` (two words: a parse error), a definition named `//f` the
+    label `//f_` (read as a comment): the names check rejects both programs, the labels are not text-safe -/
+theorem C14R_names_needed :
+    let p1 : AxCut.Prog := ⟨[⟨⟨"a b", 0⟩, [], .exit ⟨"x", 1⟩⟩], [], 1⟩
+    let p2 : AxCut.Prog := ⟨[⟨⟨"//f", 0⟩, [], .exit ⟨"x", 1⟩⟩], [], 1⟩
+    C14R_namesTextSafe p1 = false ∧ C14R_itemTextOK (.LAB "a b_") = false ∧
+    C14R_namesTextSafe p2 = false ∧ C14R_itemTextOK (.LAB "//f_") = false := by decide
+
+#eval parseLine "a b_:"                                          -- none: PARSE-ERROR
+#eval parseLine "//f_:"                                          -- a comment, not the label
+#eval parseText (intoRoutine [.LI ⟨5⟩ 0])                        -- 2 items: the `LI` is part of the comment
+#eval parseLine (printCode (.MV ⟨32⟩ ⟨1⟩))                       -- none: `X32` is no register
+#eval parseHook "#ctx [x:foo]"                                   -- some none: a malformed hook
+#eval (parseLine (printCode (.ADDI ⟨5⟩ ⟨6⟩ (-7))), parseLine (printCode (.ADD ⟨5⟩ ⟨6⟩ ⟨7⟩)))
+
 end Scc.RV
 
 #print axioms Scc.RV.C14R_words
@@ -189,3 +381,12 @@ end Scc.RV
 #print axioms Scc.RV.C14R_run
 #print axioms Scc.RV.C14R_headLabel_needed
 #print axioms Scc.RV.C08_loader_statement_false
+#print axioms Scc.RV.C14R_names_of_A64names
+#print axioms Scc.RV.C14R_routine_textOK
+#print axioms Scc.RV.C14R_routine_loads
+#print axioms Scc.RV.C14R_routine_loads_exact
+#print axioms Scc.RV.C14R_routine_run
+#print axioms Scc.RV.C08_programs_routine_text
+#print axioms Scc.RV.C08_programs_text_loaded
+#print axioms Scc.RV.C08_programs_live_text
+#print axioms Scc.RV.C14R_names_needed
